@@ -393,6 +393,14 @@ func runCompareByIdentity(rr *RuleRun) {
 					isPkgVar(info, x, "cty", typeSingletons...) || isPkgVar(info, y, "cty", typeSingletons...)
 				key := fmt.Sprintf("%s.%s/%s %s %s", pkg, declName(fd), trunc(exprStr(x), 30), op, trunc(exprStr(y), 30))
 				if single {
+					// a number singleton compared by identity as the guard of a rejection: a number that is equal to
+					// the singleton but was computed (a different *big.Float) walks past the rejection
+					if isV && op == "==" && (isPkgVar(info, x, "cty", numberSingletons...) || isPkgVar(info, y, "cty", numberSingletons...)) {
+						if ifs := identityGuardsRejection(c, info, n); ifs != nil {
+							rr.Violation(key, pos, fmt.Sprintf("the rejection guarded by 'if %s' recognises the number only by identity with the package variable (== on cty.Value compares the *big.Float pointers): an equal number that was computed or parsed — cty.NumberIntVal(0), cty.NumberFloatVal(math.Inf(1)) — is not rejected; compare the value (RawEquals, or the payload's Sign() / IsInf())", trunc(exprStr(ifs.Cond), 60)))
+							return
+						}
+					}
 					rr.OKTrivial(key, pos, "compared with a package-level singleton")
 					return
 				}
@@ -431,3 +439,49 @@ var identityAllowed = map[string]string{
 }
 
 func isAccuracy(t types.Type) bool { return namedType(t) == "math/big.Accuracy" }
+
+var numberSingletons = []string{"Zero", "PositiveInfinity", "NegativeInfinity"}
+
+// identityGuardsRejection: n is a comparison that, when true, makes the condition of an if statement true (it is
+// the condition or a disjunct of it), and the body of that if returns a non-nil error.
+func identityGuardsRejection(c *Ctx, info *types.Info, n ast.Node) *ast.IfStmt {
+	var child ast.Node = n
+	for p := c.Parent(n); p != nil; child, p = p, c.Parent(p) {
+		switch x := p.(type) {
+		case *ast.ParenExpr:
+			continue
+		case *ast.BinaryExpr:
+			if x.Op == token.LOR {
+				continue
+			}
+			return nil
+		case *ast.IfStmt:
+			if ast.Node(x.Cond) != child {
+				return nil
+			}
+			rejects := false
+			inspectNoLit(x.Body, func(m ast.Node) bool {
+				if ret, ok := m.(*ast.ReturnStmt); ok && len(ret.Results) > 0 {
+					last := ret.Results[len(ret.Results)-1]
+					if t := info.TypeOf(last); t != nil && namedType(t) == "error" || t != nil && types.Implements(t, errorIface()) {
+						if !isNilIdent(info, last) {
+							rejects = true
+						}
+					}
+				}
+				return true
+			})
+			if rejects {
+				return x
+			}
+			return nil
+		default:
+			return nil
+		}
+	}
+	return nil
+}
+
+func errorIface() *types.Interface {
+	return types.Universe.Lookup("error").Type().Underlying().(*types.Interface)
+}
